@@ -107,6 +107,18 @@ REG["C04"] = {
                     "glob_to_regex_string translation table", "kind dispatch in RuleRegistry (regex-based, C08)"],
 }
 
+REG["C11"] = {
+    "units": ["escaping"],
+    "scope": "ASCII mode: escaped_expectation_ascii(line) is all printable ASCII and is either the line itself (its UTF-8 bytes are the line's content) or `t (escaped)` with "
+             "decode(t) == content (round-trip lemma over the verified encoder table byte_to_ascii == enc_a and the verified decoders unescape_tabs == unesc, "
+             "resolve_escape_sequences_to_bytes == resolve); EscapedRule::matches compares the stored bytes with the line minus trailing LFs.",
+    "assumptions": ESC_TRUST + [
+        "String::from_utf8_lossy: identity on ASCII bytes; a control byte / DEL / byte >= 0x80 never decodes to printable ASCII only (axiom_lossy_*; bounded validation in thorough tier)",
+        "a line has no LF except at its end (holds for the output of split_at_newline, proved under C02)",
+    ],
+    "not_decided": ["that the written text is *parsed back* as that kind (ExpectationMaker::parse is regex-based: a plain line ending in ` (glob)` etc. is C09's concern)"],
+}
+
 VX_NOTE = ("Trusted: Verus/Z3; the extractor's rewrite rules (DESIGN §4.2, each firing is logged in evidence.rewrites_fired); "
            "prelude.rs shims and assume_specifications (mechanically scanned into evidence.trusted_base); "
            "machine integers are NOT idealised (usize overflow is an obligation).")
@@ -140,6 +152,9 @@ LEVELS["C04"] = {"category": "proof", "technique": "Verus postconditions on extr
     "text": "Unbounded proof, for all expressions and lines, of the equal / no-eol / escaped matchers and of both escape decoders against recursive specs; for regex and glob "
             "kinds the contract is on the pattern text and candidate bytes handed to the regex / wildmatch crates, whose matching semantics is an assumed contract.",
     "design_ref": "DESIGN.md §5 C04", "note": VX_NOTE}
+LEVELS["C11"] = {"category": "proof", "technique": "Verus: encoder/decoder functions proved equal to recursive specs + round-trip and printability lemmas over those specs",
+    "text": "Unbounded proof over all byte strings: the real encoder and decoders equal their spec functions, and decode(encode(bs)) == bs, all output chars printable.",
+    "design_ref": "DESIGN.md §5 C11", "note": VX_NOTE}
 
 NOT_APPLICABLE = [
     {"property_id": "C06", "reason": "being built (markdown tokenizer, partial) — not yet claimed"},
@@ -147,7 +162,6 @@ NOT_APPLICABLE = [
     {"property_id": "C08", "reason": "being built (quantifier round trip, partial) — not yet claimed"},
     {"property_id": "C09", "reason": "composition generate->parse->validate through format!-heavy rendering and the regex crate; contracts on the pieces in reach do not compose without a verified parser (DESIGN §10)"},
     {"property_id": "C10", "reason": "same composition plus MarkdownIterator; no contract within reach expresses byte-for-byte preservation through the regex-based tokenizer (DESIGN §10)"},
-    {"property_id": "C11", "reason": "being built (escaping round trip) — not yet claimed"},
     {"property_id": "C12", "reason": "a property of bash executing bash_runner.template; no Rust function's postcondition can state it (DESIGN §10)"},
     {"property_id": "C13", "reason": "being built (CRLF kernel, partial) — not yet claimed"},
     {"property_id": "C15", "reason": "decision is interleaved with process spawning/TempDir/Instant inside execute_all; a modular contract would need almost the whole body behind external_body stubs (DESIGN §10)"},
